@@ -31,7 +31,8 @@ PROFILE = {"n_states": (2, 5), "n_events": (1, 3), "extra_transitions": (1, 6), 
 
 def owns(rule, flags):
     # after an injected failure the processing discipline must still hold for the following sends
-    return rule.startswith("C03.") or bool(flags.get("after_failure")) or rule == "C04.quiescence"
+    # ... and any deviation inside a step in which a callback sent an event (order and results ACROSS events)
+    return rule.startswith("C03.") or bool(flags.get("after_failure")) or rule == "C04.quiescence" or bool(flags.get("nested_in_step"))
 
 
 def make_case(rng, i):
